@@ -128,7 +128,7 @@ def run(ctx):
             ctx.sample(case)
     if not ctx.model_ok:
         return
-    bad, err = ctx.coq_mismatches("corr", IMPORTS, corr_expr, corr_exp, shard=120)
+    bad, err = ctx.coq_mismatches("corr", IMPORTS, corr_expr, corr_exp, shard=120 if ctx.quick else 40, timeout=600 if ctx.quick else 2400)
     if err:
         ctx.violation("correspondence cases failed to evaluate", {"error": err}, has_input=False)
     if bad:
